@@ -9,6 +9,7 @@ _UNWIND = [
     (r"StatusMask as std::iter::FromIterator", 14),   # DcpsStatusCondition::default(): 13 status kinds
     (r"overflowing_pow", 8),
     (r"retain_mut", 3),                                  # Vec::retain over 2 changes (+ exit test)
+    (r"c29_lifespan::(remove_stale|time_until|history_fixture)", 4),  # the harness's own constant-bound loops (N <= 3)
 ]
 
 for _pid in ("C30", "C29", "C33", "C27", "C28"):
